@@ -52,6 +52,10 @@ MUTANTS = [
     ('operator_dict.py', "mv2 = mv2 if isinstance(mv2, MultiVector) else MultiVector.fromkeysvalues(self.algebra, (0,), [mv2])",
      "mv2 = mv2 if isinstance(mv2, MultiVector) else MultiVector.fromkeysvalues(self.algebra, (1,), [mv2])", 'dispatch', 'a number as operand 2'),
     ('operator_dict.py', "if not (mv1.algebra is mv2.algebra or mv1.algebra == mv2.algebra):", "if False:", 'dispatch', 'operands whose algebras differ'),
+    ('operator_dict.py', "keys_in = tuple(mv.keys() for mv in mvs)", "keys_in = (mv.keys() for mv in mvs)", 'dispatch', 'the cache key compares equal on the next call'),
+    ('operator_dict.py', "keys_in = tuple(mv.keys() for mv in mvs)", "keys_in = tuple(mv.keys() for mv in reversed(mvs))", 'dispatch', "operands' key tuples, in operand order"),
+    ('operator_dict.py', "values_in = tuple(mv.values() for mv in mvs)", "values_in = tuple(mv.values() for mv in reversed(mvs))", 'dispatch', 'values are passed in operand order'),
+    ('operator_dict.py', "keys_in = tuple(mv.keys() for mv in mvs)", "keys_in = tuple([mv.keys() for mv in mvs])", 'dispatch', 'pass'),      # harmless: same tuple
     ('multivector.py', "return self._values[idx] if swaps % 2 == 0 else - self._values[idx]", "return self._values[idx]", 'access', 'getattr: (-1)^parity'),
     ('multivector.py', "for k in self.algebra.indices_for_grades[grades] if k in self.keys()}", "for k in self.algebra.indices_for_grades[grades]}", 'access', 'grade: a candidate blade is kept'),
     ('multivector.py', "        return self.algebra.sub(other, self)", "        return self.algebra.sub(self, other)", 'delegation', '__rsub__'),
@@ -61,6 +65,9 @@ MUTANTS = [
     ('polynomial.py', "if diff < 0:", "if diff <= 0:", 'poly', 'Polynomial.__add__'),
     ('polynomial.py', "ea[0] += eb[0]", "ea[0] -= eb[0]", 'poly', 'Polynomial.__add__'),
     ('polynomial.py', "if ea[0] != 0:", "if True:", 'poly', 'appended coefficient is non-zero'),
+    ('polynomial.py', "                ea = ea.copy()\n", "", 'poly', 'frame: the monomials of operand'),
+    ('polynomial.py', "if other == 0 and (not self.args or self.args == [[0]]): return True", "if other == 0 and (not self.args or self.args == [[0]] or all(abs(m[0]) < 1e-14 for m in self.args)): return True", 'poly', '__eq__(0)'),
+    ('polynomial.py', "            return bool(self.args[0][0])", "            return abs(self.args[0][0]) >= 1e-14", 'poly', '__bool__'),
     ('polynomial.py', "nn, nd = na * db + nb * da, da * db", "nn, nd = na * db + nb * da, da", 'poly', 'post __add__'),
     ('polynomial.py', "return la - lb", "return lb - la", 'poly', 'compare'),
     ('polynomial.py', "for i in range(1, l):", "for i in range(0, l):", 'poly', 'compare'),
@@ -164,7 +171,7 @@ def build_group(H, group):
     elif group == 'table':
         A.vc_compute_sign(H); A.vc_default_naming(H); A.vc_cayley(H); A.vc_prepare_signs(H); A.vc_blade2canon(H); A.vc_bladedict_getitem(H)
     elif group == 'dispatch':
-        D.vc_getitem(H, 'OperatorDict'); D.vc_call_binary(H); D.vc_unary_call(H); D.vc_filter(H)
+        D.vc_getitem(H, 'OperatorDict'); D.vc_call_binary(H); D.vc_unary_call(H); D.vc_filter(H); D.vc_call_nary(H)
     elif group == 'access':
         AC.vc_grade(H); AC.vc_getattr(H)
     elif group == 'delegation':
